@@ -4,23 +4,21 @@
 package podgroup
 
 import (
-	"reflect"
+	"k8s.io/apimachinery/pkg/api/equality"
 
 	enginev2alpha2 "github.com/NVIDIA/KAI-scheduler/pkg/apis/scheduling/v2alpha2"
 )
 
 func podGroupsEqual(oldPodGroup, newPodGroup *enginev2alpha2.PodGroup) bool {
-	return reflect.DeepEqual(oldPodGroup.Spec, newPodGroup.Spec) &&
-		reflect.DeepEqual(oldPodGroup.OwnerReferences, newPodGroup.OwnerReferences) &&
+	// Semantic equality: an object read back from the API server has nil where the desired object has
+	// empty slices/maps (omitempty fields such as spec.subGroups), which must not count as a difference.
+	return equality.Semantic.DeepEqual(oldPodGroup.Spec, newPodGroup.Spec) &&
+		equality.Semantic.DeepEqual(oldPodGroup.OwnerReferences, newPodGroup.OwnerReferences) &&
 		mapsEqualBySourceKeys(newPodGroup.Labels, oldPodGroup.Labels) &&
 		mapsEqualBySourceKeys(newPodGroup.Annotations, oldPodGroup.Annotations)
 }
 
 func mapsEqualBySourceKeys(source, target map[string]string) bool {
-	if source != nil && target == nil {
-		return false
-	}
-
 	for key, sourceValue := range source {
 		if targetValue, exists := target[key]; !exists || targetValue != sourceValue {
 			return false
